@@ -167,6 +167,10 @@ def outstr_item(proto, raw, parsed):
 def handle(line):
     t = line.split()
     op = t[0]
+    if op.startswith("pyl-"):
+        # the driver answers these by interpreting the working tree's code (PyLite); Python's own answer is that of
+        # the plain operation
+        return handle(line[4:])
     if op == "ping":
         return "pong"
     if op == "cksum":
